@@ -962,3 +962,37 @@ def fs3_memory_rename_and_remove(P, R, L, rule="FS-3"):
                 "rename removes `from`, inserts the removed file under `to`, and returns Ok only when both happened",
                 "removals %d (by `from` %d), inserts %d (of the removed file under `to` %d), Ok sites %d" % (len(rem), len(by_src), len(ins), len(good), len(oks)))
     R.floor(rule, "in-memory file system methods examined", n, 2)
+
+
+# ------------------------------------------------------------------------------------------- GRD-6b end-of-log is only ever claimed at the end of the file
+def grd6b_eof_only_from_a_short_read(P, R, L, rule="GRD-6"):
+    """In the log reader `ErrorKind::UnexpectedEof` means "the file ends here" - read_record turns it into a clean end of the
+    log, also for the manifest reader that reports every other damage.  So the value is constructed only on the edge where a
+    read came back short (`bytes read < expected`).  A content test that is mapped to the same kind (an all-zero header, an
+    implausible length, ...) makes records that FOLLOW such bytes disappear without an error."""
+    n = 0
+    for fn in (READ_PHYS, "logs::LogReader::read_record"):
+        b = P.body(fn)
+        if b is None:
+            R.missing_anchor(rule, fn)
+            continue
+        R.analysed(b)
+        mk = []
+        for bb in range(b.n):
+            if b.is_cleanup(bb):
+                continue
+            for st in b.blocks[bb]["stmts"]:
+                if st["k"] == "assign" and st["rv"]["k"] == "aggregate" and (st["rv"].get("adt") or "").endswith("io::ErrorKind") and st["rv"].get("variant") == "UnexpectedEof":
+                    # a constructed value (not a pattern): it is moved somewhere
+                    mk.append((bb, st))
+        reads = [c for c in b.calls() if not b.is_cleanup(c.bb) and (c.declared_name or c.name or "").endswith("::read") and "read_exact" not in (c.name or "")]
+        short = []
+        for r in reads:
+            n_is = lambda os_, r=r: any(o.kind == "call" and o.site is not None and o.site.bb == r.bb for o in os_)
+            for c in comparisons(b):
+                short += c.edges_where("lt", n_is, lambda os_: True, exact=True)
+        bad = ["UnexpectedEof constructed at line %s outside a short-read edge" % st.get("line") for (bb, st) in mk if not b.must_pass(bb, through_edges=short)]
+        n += len(mk)
+        R.check(rule, fn + "|eof-only-from-a-short-read", not bad, where(b),
+                "ErrorKind::UnexpectedEof is constructed only behind `bytes read < expected` of a file read", "; ".join(bad) or "constructions %d, short-read edges %d" % (len(mk), len(short)))
+    R.floor(rule, "constructions of ErrorKind::UnexpectedEof in the log reader", n, 2)
